@@ -70,25 +70,30 @@ def write_replay(mod, key, ex, tier):
 
 
 def replay(path):
+    """re-run one recorded case without the explorer.  Exit 1 iff an unlisted violation shows; violations that match a listed
+    known finding (e.g. in the history prefix a case depends on) are printed as KNOWN-FINDING and do not count."""
     with open(path) as f:
         rec = json.load(f)
     mod = importlib.import_module("vt.props." + rec["property"].lower())
-    acc = core.Acc(mod.ID, findings=[], predicates=getattr(mod, "PREDICATES", {}))
+    acc = core.Acc(mod.ID, predicates=getattr(mod, "PREDICATES", {}))
     old = sys.stdout
     sys.stdout = open(os.devnull, "w")
     try:
         mod.replay_case(rec["case"], acc)
     finally:
         sys.stdout = old
-    hit = False
-    for (key, fid), slot in acc.viol.items():
+    unlisted = 0
+    for (key, fid), slot in sorted(acc.viol.items(), key=lambda kv: (kv[0][0], str(kv[0][1]))):
+        if fid is not None:
+            print("KNOWN-FINDING: property=%s %s reproduced in the replayed history (%d cases)" % (mod.ID, fid, slot["count"]))
+            continue
+        unlisted += 1
         for ex in slot["examples"]:
-            print("REPRODUCED key=%s\n  case=%s\n  expected=%s\n  observed=%s" % (
-                key, core.jdump(ex["case"]), core.jdump(ex["expected"]), core.jdump(ex["observed"])))
-            hit = hit or key == rec["key"]
-    if not acc.viol:
+            print("REPRODUCED key=%s%s\n  case=%s\n  expected=%s\n  observed=%s" % (
+                key, "" if key == rec.get("key") else " (another symptom than the recorded one)", core.jdump(ex["case"]), core.jdump(ex["expected"]), core.jdump(ex["observed"])))
+    if not unlisted:
         print("NOT REPRODUCED: the recorded case now passes")
-    return 1 if acc.viol else 0
+    return 1 if unlisted else 0
 
 
 def main(argv=None):
